@@ -114,7 +114,7 @@ func buildChain(r *lib.Rng, z *zoo) (*object, error) {
 	mshared := []string{opT(0, "S", []string{pk[0]}, []string{"z"})}
 	shared = spare(shared) // spare capacity: an append to the options inside a run must not reach it
 	return &object{
-		desc: d,
+		desc: d, roots: []any{run, ch, shared}, proj: run,
 		mcall: func(sp spec, si int) string {
 			return callTerm(vS(selfTag+strings.Repeat("ab", sp.In)+fmt.Sprint(sp.In)),
 				mWithShared(sp.Opt, mshared, mLambdaOpts(si, sp.Opt, pk[0], "z")), 0)
@@ -279,7 +279,7 @@ func buildState(r *lib.Rng, z *zoo) (*object, error) {
 	mshared := []string{opT(0, "S", []string{"a"})}
 	shared = spare(shared) // spare capacity: an append to the options inside a run must not reach it
 	return &object{
-		desc: d,
+		desc: d, roots: []any{run, g, shared}, proj: run,
 		mcall: func(sp spec, si int) string {
 			return callTerm(vR(selfTag, 0, sp.In, fmt.Sprintf("in%d", sp.In)),
 				mWithShared(sp.Opt, mshared, mLambdaOpts(si, sp.Opt, "a")), 0)
@@ -447,7 +447,7 @@ func buildNested(r *lib.Rng, z *zoo) (*object, error) {
 		badPath = []string{"sub2", "inner", "nosuch"}
 	}
 	return &object{
-		desc: d, depth: 2,
+		desc: d, depth: 2, roots: []any{run, outer, shared}, proj: run,
 		mcall: func(sp spec, si int) string {
 			var own []string
 			if sp.Opt&optLambdaDesignated != 0 {
